@@ -23,7 +23,8 @@ vars == <<alive, cfg, outcome, steps>>
 AngleClasses == 1..9
 Shapes == {"spheroid_oblate", "spheroid_prolate", "spheroid_equal", "cylinder_flat", "cylinder_long",
            "sphere"}
-Sizes == {"tiny", "small", "medium", "large", "beyond_solver_limit"}
+Sizes == {"tiny", "small", "medium", "large", "beyond_solver_limit",
+          "astronomical"}       \* a size parameter no 32-bit integer holds (3e9): "any size"
 Configs == [shape : Shapes, size : Sizes, absorbing : BOOLEAN,
             a : {3, 4, 9}, b : AngleClasses, g : AngleClasses]
 
